@@ -4,9 +4,12 @@
    [ 2 rate unit burst [ [t maxwait] ... ] ]                  -> limiter: admitted [[t act tokens]...]
    [ 3 rate unit burst slack [acts] ]                         -> window_ok
    [ 4 ntok n [ [0 i ok] [1] [2] [3] [4 d] [5 timer] ... ] ]  -> shutdown machine: pcs, file, clean, no-ping-after-close, returned, forced, tokens closed, lines
-   [ 5 n [ [i ok] ... ] ]                                     -> timestamper: per thread [state value], constructions *)
+   [ 5 n [ [i ok] ... ] ]                                     -> timestamper: per thread [state value], constructions
+   [ 6 nlis n [ [0 i] [1 i] [2 sig] [3] [4 d] [5 k] ... ] ]   -> process-level shutdown machine (thread step / handler step / signal /
+                                                                 watcher receive / tick / k round-robin rounds over all goroutines):
+                                                                 [alive how code forced tokens-closed closing spec_ok] handler codes, goroutines *)
 From Relic Require Import Base.Prelude Base.Val Generated.C14_gen C14.Model.
-From Relic Require C14.ModelCache C14.ModelRate C14.ModelShut C14.ModelInit.
+From Relic Require C14.ModelCache C14.ModelRate C14.ModelShut C14.ModelInit C14.ModelProc.
 
 Definition run_iso (v : val) : val :=
   let rqs := map (fun r => mkRq (vz (vnth 0 r)) (vz (vnth 1 r)) (vz (vnth 2 r))) (vl (vnth 0 v)) in
@@ -77,6 +80,29 @@ Definition run_ts (v : val) : val :=
       VZ (zlen (ts_made s))].
 End InitRun.
 
+Section ProcRun.
+Import C14.ModelProc.
+Definition ppc_code (p : ppc) : Z :=
+  match p with PNew => 0 | PRefused => 1 | PRun k => 10 + Z.of_nat k | PDone => 2 | PCut => 4 | PTokGone => 5 end.
+(* one round: every goroutine that exists at the beginning of the round takes one step, in order *)
+Definition round (nlis : nat) (s : pstate) : pstate := fold_left (pstep real_progs nlis) (map PThr (seq 0 (length (p_thr s)))) s.
+Fixpoint rounds (nlis k : nat) (s : pstate) : pstate := match k with O => s | S j => rounds nlis j (round nlis s) end.
+Definition run_proc (v : val) : val :=
+  let nlis := Z.to_nat (vz (vnth 1 v)) in
+  let n := Z.to_nat (vz (vnth 2 v)) in
+  let stepv := fun s e =>
+    let c := vz (vnth 0 e) in
+    if c =? 0 then pstep real_progs nlis s (PThr (Z.to_nat (vz (vnth 1 e))))
+    else if c =? 1 then pstep real_progs nlis s (PReq (Z.to_nat (vz (vnth 1 e))))
+    else if c =? 2 then pstep real_progs nlis s (PSig (vz (vnth 1 e)))
+    else if c =? 3 then pstep real_progs nlis s PWatch
+    else if c =? 4 then pstep real_progs nlis s (PTick (vz (vnth 1 e)))
+    else rounds nlis (Z.to_nat (vz (vnth 1 e))) s in
+  let s := fold_left stepv (vl (vnth 3 v)) (pinit real_progs n) in
+  VL [VL [of_bool (p_alive s); VZ (p_how s); VZ (p_code s); of_bool (p_forced s); of_bool (p_tok_closed s); of_bool (p_closing s); of_bool (spec_ok s)];
+      VL (map (fun p => VZ (ppc_code p)) (p_req s)); VZ (zlen (p_thr s)); VZ (Z.of_nat (p_eg s))].
+End ProcRun.
+
 Definition run (v : val) : val :=
   match vnth 0 v with
   | VL _ => run_iso v
@@ -85,5 +111,6 @@ Definition run (v : val) : val :=
   | VZ 3 => run_window v
   | VZ 4 => run_shut v
   | VZ 5 => run_ts v
+  | VZ 6 => run_proc v
   | _ => VL []
   end.
